@@ -42,6 +42,20 @@ def write_input(path, T, fmt, u, clock):
                 f.write(" ".join([repr(t)] + pos + [repr(float(v)) for v in q]) + "\n")
 
 
+def write_bag(path, topics, u, clock):
+    """ROS1 bag with one geometry_msgs/PoseStamped topic per trajectory (written with evo's own bag writer, whose fidelity is C06's
+    business; stamps are dyadic, so whole nanoseconds)"""
+    from evo.core.trajectory import PoseTrajectory3D
+    from evo.tools import file_interface as fi
+    from rosbags.rosbag1 import Writer
+    with Writer(path) as wr:
+        for topic, T in topics:
+            pos = np.array([[u * v for v in p["p"]] for p in T["poses"]], dtype=float)
+            quat = np.array([np.roll(_quat_xyzw(p["r"]), 1) for p in T["poses"]], dtype=float)
+            st = np.array([float(clock.g(s_)) for s_ in T["stamps"]])
+            fi.write_bag_trajectory(wr, PoseTrajectory3D(positions_xyz=pos, orientations_quat_wxyz=quat, timestamps=st), topic, frame_id="map")
+
+
 def parse_export(path, export, u, clock, plane, stamp_tol=0.0):
     """independent parser of the exported TUM / KITTI file -> alpha"""
     rows = [ln.split() for ln in open(path).read().splitlines() if ln.strip() and not ln.startswith("#")]
@@ -77,16 +91,26 @@ def execute(job):
     q = c["q"]
     d = tempfile.mkdtemp(prefix="tj_", dir=core.workdir())
     try:
-        ext = {"tum": ".txt", "euroc": ".csv", "kitti": ".kitti.txt"}[c["fmt"]]
+        bag = c["fmt"] == "bag"
+        if bag:
+            clock = [geom.Clock(1.5e9, 0.125), geom.Clock(4096, 0.5)][(n + seed) % 2]            # ROS times are not negative (some stamps of the cases are)
+        ext = {"tum": ".txt", "euroc": ".csv", "kitti": ".kitti.txt", "bag": ""}[c["fmt"]]
         names = []
         for k, T in enumerate(c["trajs"]):
             nm = "est%d%s" % (k, ext)
-            write_input(os.path.join(d, nm), T, c["fmt"], u, clock)
+            if not bag:
+                write_input(os.path.join(d, nm), T, c["fmt"], u, clock)
             names.append(nm)
-        argv = [c["fmt"]] + names
-        if c["useref"]:
-            write_input(os.path.join(d, "gt" + ext), c["ref"], c["fmt"], u, clock)
-            argv += ["--ref", "gt" + ext]
+        if bag:
+            write_bag(os.path.join(d, "in.bag"), [("/" + nm, T) for nm, T in zip(names, c["trajs"])] + ([("/gt", c["ref"])] if c["useref"] else []), u, clock)
+            argv = ["bag", "in.bag"] + ["/" + nm for nm in names]
+            if c["useref"]:
+                argv += ["--ref", "/gt"]
+        else:
+            argv = [c["fmt"]] + names
+            if c["useref"]:
+                write_input(os.path.join(d, "gt" + ext), c["ref"], c["fmt"], u, clock)
+                argv += ["--ref", "gt" + ext]
         if q["down"]:
             argv += ["--downsample", str(q["down"])]
         if q["mf"]:
@@ -128,7 +152,7 @@ def execute(job):
         if r["code"] != 0 or r["exc"] != "none":
             return {"out": "exit%s %s %s" % (r["code"], r["exc"], r["out"][-150:]), "est": [], "ref": [], "argv": argv}
         suffix = "." + c["export"]
-        stems = ["merged_trajectory"] if q["merge"] else [os.path.splitext(nm)[0] if c["fmt"] != "kitti" else nm[:-4] for nm in names]
+        stems = ["merged_trajectory"] if q["merge"] else [nm if bag else os.path.splitext(nm)[0] if c["fmt"] != "kitti" else nm[:-4] for nm in names]
         est = []
         for st in stems:
             p = os.path.join(d, st + suffix)
@@ -220,7 +244,11 @@ def execute_metric(job):
     d = tempfile.mkdtemp(prefix="pm_", dir=core.workdir())
     try:
         kitti = c["fmt"] == "kitti"
-        if kitti:
+        if c["fmt"] == "bag":
+            clock = [geom.Clock(1.5e9, 0.125), geom.Clock(4096, 0.5)][(n + seed) % 2]
+            write_bag(os.path.join(d, "in.bag"), [("/gt", c["ref"]), ("/est", c["est"])], u, clock)
+            argv = ["bag", "in.bag", "/gt", "/est"]
+        elif kitti:
             write_input(os.path.join(d, "gt.txt"), c["ref"], "kitti", u, clock)
             write_input(os.path.join(d, "est.txt"), c["est"], "kitti", u, clock)
             argv = ["kitti", "gt.txt", "est.txt"]
@@ -230,7 +258,7 @@ def execute_metric(job):
         else:
             write_input(os.path.join(d, "gt.txt"), c["ref"], "tum", u, clock)
             argv = ["tum", "gt.txt", "est.txt"]
-        if not kitti:
+        if not kitti and c["fmt"] != "bag":
             write_input(os.path.join(d, "est.txt"), c["est"], "tum", u, clock)
         argv += ["-r", RELARG[q["rel"]]]
         if q["down"]:
